@@ -724,6 +724,7 @@ fn main() -> ExitCode {
             "C14" => run_c14(n),
             "C17" => c17::run_c17(n),
             "C08" => c08::run_c08(n),
+            "C09" => c08::run_c09(n),
             _ => return ExitCode::from(2),
         };
         return match res {
@@ -762,7 +763,7 @@ fn main() -> ExitCode {
                 Err(e) => Err(("bad-replay-file".into(), e.to_string())),
             },
             "C17" => c17::replay(&case),
-            "C08" => c08::replay(&case),
+            "C08" | "C09" => c08::replay(&case),
             "C03" => match serde_json::from_value::<RHistory>(case) {
                 Ok(h) => c03_check(&ext, &dir, "r", &h).map(|_| ()),
                 Err(e) => Err(("bad-replay-file".into(), e.to_string())),
